@@ -2,9 +2,10 @@
 """store_mut.py <PROP> <n> <seeded-id> <demo dest dir> <demo cargo cmd> <caught-by json> [extra-props]
 Copies an agent-produced, verified seeded change into /verif/seeded/<seeded-id>/ ."""
 import json, os, shutil, sys
-prop, n, sid, dest, cmd, caught = sys.argv[1:7]
+wt, n, sid, dest, cmd, caught = sys.argv[1:7]
+prop = wt[:3]  # worktree names of later rounds carry a suffix (C01b)
 also = sys.argv[7].split(",") if len(sys.argv) > 7 and sys.argv[7] else []
-src = f"/tmp/mut/{prop}-out"
+src = f"/tmp/mut/{wt}-out"
 d = f"/verif/seeded/{sid}"
 os.makedirs(d, exist_ok=True)
 shutil.copy(f"{src}/mutant{n}.diff", f"{d}/patch.diff")
@@ -20,7 +21,7 @@ meta = dict(
     needs_to_manifest=notes.strip().split("\n\n")[-1][:600] if notes else "",
     demo=dict(place_files_in=dest, command=cmd),
     confirmed=dict(
-        how="scratch worktree /tmp/mut/%s (removed afterwards): git apply patch.diff; cargo test --workspace --offline; demo with and without the patch" % prop,
+        how="scratch worktree /tmp/mut/%s (removed afterwards): git apply patch.diff; cargo test --workspace --offline; demo with and without the patch" % wt,
         pinned_suite_with_change="105 passed, 0 failed",
         demo_with_change="fails", demo_without_change="passes"),
     caught_by=json.loads(caught),
